@@ -22,7 +22,9 @@ CONSTANTS MaxCalls,
           CapsPairs,      \* sequence of [pre, post]: capability views before / after TLS
           Prefs,          \* preferred-mechanism arguments ("" = none given)
           TLSArgs,        \* subset of BOOLEAN: values of the starttls argument
-          Reactions,      \* server reactions to a command: subset of {"OK","NO","BYE","silence","garbage"}
+          Reactions,      \* server reactions to a command: subset of {"OK","NO","BYE","silence","garbage","reset"}
+                          \* (reset: the connection was reset by the peer, already the client's *write* fails; the
+                          \*  environment would accept a new connection, which a correct client does not open on its own)
                           \* (garbage: octets that are no reply at all; a client can only time out on them)
           OpVerbs,        \* script operations exercised
           EnabledDevs
